@@ -246,9 +246,9 @@ func c11Families(thorough bool) []c11Family {
 	full := c11FullFrameAlpha()
 	// reduced frame alphabet used inside the Rewards full product (quick tier)
 	red := c11FrameAlpha{
-		Hash:  []int{0, 2, 11, 15},   // 1, null, 2^63-1, -2^63
-		Index: []int{0, 2, 3, 12},    // 1, null, 0, -1
-		Total: []int{0, 2, 5, 10},    // 1, null, 24, 2^32
+		Hash:  []int{0, 2, 11, 15}, // 1, null, 2^63-1, -2^63
+		Index: []int{0, 2, 3, 12},  // 1, null, 0, -1
+		Total: []int{0, 2, 5, 10},  // 1, null, 24, 2^32
 		Data:  c11Seq(len(c11ByteLens)),
 		Next:  []int{0, 1, 2, 3, 4, 5, 13}, // [1], omitted, null, [1], [], [2/1], ...
 	}
